@@ -139,6 +139,10 @@ def check(an: Analysis) -> None:
         ob.inst(fi, n, what)
         ob.fail(fi, n, f"{what}: state shared by all tasks outside the context-variable discipline")
 
+    # ------------------------------------------------------------------ C03.6 state is derived where the scope is entered
+    ob = an.ob("C03.6", "K3", "StateContext.updated (derivation from the *current* scope state) is called only when a scope / update is entered (ScopeContext.__enter__/__aenter__, ctx.updated), never at construction time")
+    _derivation_sites(an, ob)
+
     # ------------------------------------------------------------------ C03.5 copy on write
     upd = prog.fn("context.state.ScopeState.updated")
     g = an.cfg(upd)
@@ -159,6 +163,26 @@ def check(an: Analysis) -> None:
         v = r.ast.value  # type: ignore[union-attr]
         if not (isinstance(v, ast.Call) and an.callee(upd, v) == prog.cls("context.state.ScopeState").qualname):
             ob.fail(upd, r.ast, "a non-empty update does not produce a new ScopeState object (the shared one is reused)")
+
+
+def _derivation_sites(an: Analysis, ob) -> None:
+    prog = an.prog
+    upd_q = prog.fn("context.state.StateContext.updated").qualname
+    allowed = {
+        prog.fn("context.access.ScopeContext.__enter__").qualname,
+        prog.fn("context.access.ScopeContext.__aenter__").qualname,
+        prog.fn("context.access.ctx.updated").qualname,
+    }
+    n = 0
+    for fi in prog.functions.values():
+        for c in fi.own_nodes():
+            if isinstance(c, ast.Call) and an.callee(fi, c) == upd_q:
+                n += 1
+                ob.inst(fi, c)
+                if fi.qualname not in allowed:
+                    ob.fail(fi, c, "the scope's state is resolved against the *constructing* task's current state (at construction time) instead of the entering task's: a scope or stream object prepared in one task and entered in another installs foreign state there")
+    if n < 3:
+        raise AnalysisError(f"C03.6: only {n} StateContext.updated call sites found (confirmed: 4)")
 
 
 def liveness(fixtures: str) -> list[dict]:
